@@ -251,6 +251,16 @@ func comparePointers(a *SexpPointer, bs Sexp) (int, error) {
 
 func (env *Zlisp) Compare(a Sexp, b Sexp) (int, error) {
 
+	// containers compare element by element: a container that holds
+	// itself must end in an error, not in a Go stack overflow.
+	if env != nil { // (hashes made without an interpreter compare their keys with a nil env)
+		env.compareDepth++
+		defer func() { env.compareDepth-- }()
+		if env.compareDepth > maxDataDepth {
+			return 0, fmt.Errorf("cannot compare: data nested more than %d levels deep (self-referential?)", maxDataDepth)
+		}
+	}
+
 	var err error
 	if sel, isSel := a.(Selector); isSel {
 		a, err = sel.RHS(env)
